@@ -434,6 +434,14 @@ impl TransactionManager {
         EpochId::new(self.current_epoch.load(Ordering::Acquire))
     }
 
+    /// Starts a new epoch and returns it.
+    ///
+    /// A write made outside any transaction commits on its own: it is stamped with a
+    /// fresh epoch so that transactions which began earlier keep their snapshot.
+    pub fn advance_epoch(&self) -> EpochId {
+        EpochId::new(self.current_epoch.fetch_add(1, Ordering::SeqCst) + 1)
+    }
+
     /// Returns the minimum epoch that must be preserved for active transactions.
     ///
     /// This is used for garbage collection - versions visible at this epoch
